@@ -13,6 +13,9 @@ Variable steps : list (N * N * N).
 Hypothesis Hsteps : forallb (entry_ok2 steps) (Nseq 64) = true.
 Variable stop : N.
 Hypothesis Hstop : stop <= MAX64.
+(** lower bound of the sieving primes: 7 (all of them) or 164 (above the pre-sieve) *)
+Variable pmin : N.
+Hypothesis Hpmin : 7 <= pmin.
 
 Fixpoint segs_ok (low : N) (segs : list kseg) : Prop :=
   match segs with
@@ -21,7 +24,7 @@ Fixpoint segs_ok (low : N) (segs : list kseg) : Prop :=
   end.
 
 Definition dead (low p : N) : Prop := forall q, p <= q -> coprime30 q -> low + 7 <= p * q -> stop < p * q.
-Definition sp_ok (p : N) : Prop := prime p /\ 7 <= p /\ p * p <= stop.
+Definition sp_ok (p : N) : Prop := prime p /\ pmin <= p /\ p * p <= stop.
 
 Lemma dead_mono low low' p : low <= low' -> dead low p -> dead low' p.
 Proof. intros H D q H1 H2 H3. apply D; [assumption|assumption|lia]. Qed.
@@ -43,43 +46,45 @@ Qed.
 (** the states addSievingPrime creates for a batch of new sieving primes *)
 Lemma add_primes_ok low ps : low mod 30 = 0 -> low + 6 <= MAX64 -> Forall sp_ok ps ->
   exists wsn, Forall (w_ok low) wsn /\ map w_state wsn = add_primes stop low ps /\
+              Forall (fun p => pmin <= p) (map w_prime wsn) /\
               forall p, In p ps -> In p (map w_prime wsn) \/ dead low p.
 Proof.
   intros Hl Hl6. induction ps as [|p r IH]; intros Hps.
-  - exists []. repeat split; [constructor|intros p []].
-  - inversion Hps as [|? ? (Hp & H7 & Hsq) Hr]; subst. destruct (IH Hr) as (wsn & Hok & Hst & Hcov).
+  - exists []. repeat split; [constructor|constructor|intros p []].
+  - inversion Hps as [|? ? (Hp & Hpm & Hsq) Hr]; subst. assert (H7 : 7 <= p) by lia. destruct (IH Hr) as (wsn & Hok & Hst & Hmin & Hcov).
     unfold add_primes. cbn [flat_map]. fold (add_primes stop low r).
     destruct (addSievingPrime30 stop p low) as [[mi wi]|] eqn:E.
     + destruct (asp30_state_ok stop p low mi wi Hp H7 (sq_lt32 p Hsq) Hl Hstop Hl6 E) as (ri & qi & q & Hwi & Hspr & Hwok & _).
-      exists ((p / 30, ri, qi, q, mi) :: wsn). split; [constructor; assumption|]. split.
+      exists ((p / 30, ri, qi, q, mi) :: wsn). split; [constructor; assumption|]. split; [|split].
       * cbn [map w_state app]. rewrite Hst, Hwi. reflexivity.
+      * cbn [map w_prime]. constructor; [rewrite Hspr; exact Hpm|exact Hmin].
       * intros p' [<-|Hin]; [left; cbn [map w_prime]; left; exact Hspr|].
         destruct (Hcov p' Hin) as [H|H]; [left; right; exact H|right; exact H].
-    + exists wsn. split; [exact Hok|]. split; [cbn [app]; exact Hst|].
+    + exists wsn. split; [exact Hok|]. split; [cbn [app]; exact Hst|]. split; [exact Hmin|].
       intros p' [<-|Hin]; [right; exact (asp30_none_dead stop p low Hp H7 (sq_lt32 p Hsq) Hl Hstop Hl6 E)|exact (Hcov p' Hin)].
 Qed.
 
-Definition seg_result_ok (r : kseg * list (N * N)) : Prop :=
+Definition seg_result_ok_g (r : kseg * list (N * N)) : Prop :=
   let '(sg, cleared) := r in
-  forall n, coprime30 n -> k_low sg + 7 <= n -> byteof (k_low sg) n < k_size sg -> 7 <= n -> n <= k_high sg ->
-  (~ In (byteof (k_low sg) n, maskof n) cleared <-> prime n).
+  forall n, coprime30 n -> k_low sg + 7 <= n -> byteof (k_low sg) n < k_size sg -> n <= k_high sg ->
+  (In (byteof (k_low sg) n, maskof n) cleared <-> bigfactor pmin n).
 
-Theorem sieve_loop_spec fuel : forall segs low pending (ws : list wstate) result,
+Theorem sieve_loop_spec_g fuel : forall segs low pending (ws : list wstate) result,
   segs_ok low segs ->
-  Forall (w_ok low) ws ->
+  Forall (w_ok low) ws -> Forall (fun p => pmin <= p) (map w_prime ws) ->
   StronglySorted N.lt pending -> Forall sp_ok pending ->
   (forall p, sp_ok p -> In p (map w_prime ws) \/ In p pending \/ dead low p) ->
   sieve_loop fuel steps stop segs pending (map w_state ws) = Some result ->
-  Forall seg_result_ok result.
+  Forall seg_result_ok_g result.
 Proof.
-  induction segs as [|sg rest IH]; intros low pending ws result Hsegs Hws Hsorted Hpend Hcover H; cbn [sieve_loop] in H.
+  induction segs as [|sg rest IH]; intros low pending ws result Hsegs Hws Hwmin Hsorted Hpend Hcover H; cbn [sieve_loop] in H.
   - injection H as <-. constructor.
   - destruct Hsegs as (Hlow & Hl30 & Hl6 & Hhigh & Hrest). subst low.
     destruct (span_sq (k_high sg) pending) as [now later] eqn:Esp.
     destruct (span_sq_spec _ _ _ _ Esp) as (Epend & Hnow & Hlater).
     assert (Hnow_ok : Forall sp_ok now) by (rewrite Epend in Hpend; apply Forall_app in Hpend; tauto).
     assert (Hlater_ok : Forall sp_ok later) by (rewrite Epend in Hpend; apply Forall_app in Hpend; tauto).
-    destruct (add_primes_ok (k_low sg) now Hl30 Hl6 Hnow_ok) as (wsn & Hwsn & Hstn & Hcovn).
+    destruct (add_primes_ok (k_low sg) now Hl30 Hl6 Hnow_ok) as (wsn & Hwsn & Hstn & Hminn & Hcovn).
     rewrite <- Hstn, <- map_app in H.
     destruct (cross_all fuel steps (k_size sg) (map w_state (ws ++ wsn))) as [[cleared sts2]|] eqn:Ec; [|discriminate].
     destruct (sieve_loop fuel steps stop rest later sts2) as [r|] eqn:Er; [|discriminate]. injection H as <-.
@@ -90,7 +95,8 @@ Proof.
       assert (Hs : StronglySorted N.lt (p0 :: l0)).
       { rewrite Epend in Hsorted. clear - Hsorted. induction now as [|a now IHn]; [exact Hsorted|]. cbn in Hsorted. inversion Hsorted; subst. apply IHn. assumption. }
       destruct Hp as [<-|Hp]; [exact Hlater|]. inversion Hs as [|? ? _ Hall]; subst. rewrite Forall_forall in Hall. specialize (Hall p Hp). nia. }
-    assert (Hcomplete : forall p, prime p -> 7 <= p -> p * p <= k_high sg ->
+    assert (Hws1min : Forall (fun p => pmin <= p) (map w_prime (ws ++ wsn))) by (rewrite map_app; apply Forall_app; split; assumption).
+    assert (Hcomplete : forall p, prime p -> pmin <= p -> p * p <= k_high sg ->
               In p (map w_prime (ws ++ wsn)) \/ (forall q, p <= q -> coprime30 q -> k_low sg + 7 <= p * q -> stop < p * q)).
     { intros p Hp H7 Hsq. assert (Hsp : sp_ok p) by (split; [exact Hp|split; [exact H7|lia]]).
       rewrite map_app, in_app_iff.
@@ -99,11 +105,13 @@ Proof.
       - destruct (Hcovn p Hin) as [H1|H1]; [left; right; exact H1|right; exact H1].
       - specialize (Hlater_sq p Hin). lia. }
     constructor.
-    + cbn [seg_result_ok]. intros n Hc Hn Hb H7 Hnh.
-      apply (kernel_segment steps Hsteps fuel (k_low sg) (k_size sg) (k_high sg) stop (ws ++ wsn) cleared sts2 Hl30 Hws1 Hcomplete Ec n Hc Hn Hb H7 Hnh). lia.
+    + cbn [seg_result_ok_g]. intros n Hc Hn Hb Hnh.
+      assert (Hxmin : forall x, In x (ws ++ wsn) -> pmin <= w_prime x).
+      { intros x Hx. rewrite Forall_forall in Hws1min. apply Hws1min. apply in_map. exact Hx. }
+      apply (kernel_segment_g steps Hsteps fuel (k_low sg) (k_size sg) (k_high sg) stop pmin (ws ++ wsn) cleared sts2 Hl30 Hws1 Hxmin Hcomplete Ec n Hc Hn Hb Hnh). lia.
     + destruct (cross_all_spec steps Hsteps fuel (k_low sg) (k_size sg) Hl30 (ws ++ wsn) cleared sts2 Hws1 Ec) as (_ & ws' & Hws' & Hprimes & Hstates).
       rewrite <- Hstates in Er.
-      apply (IH (k_low sg + 30 * k_size sg) later ws' r Hrest Hws'); [| exact Hlater_ok | | exact Er].
+      apply (IH (k_low sg + 30 * k_size sg) later ws' r Hrest Hws'); [rewrite Hprimes; exact Hws1min| | exact Hlater_ok | | exact Er].
       * rewrite Epend in Hsorted. clear - Hsorted. induction now as [|a now IHn]; [exact Hsorted|]. cbn in Hsorted. inversion Hsorted; subst. apply IHn. assumption.
       * intros p Hsp. rewrite Hprimes, map_app, in_app_iff.
         destruct (Hcover p Hsp) as [Hin|[Hin|Hd]].
@@ -114,3 +122,27 @@ Proof.
         -- right. right. apply (dead_mono (k_low sg)); [lia|exact Hd].
 Qed.
 End Loop.
+
+(** all sieving primes (pmin = 7): bit set iff prime *)
+Definition seg_result_ok (r : kseg * list (N * N)) : Prop :=
+  let '(sg, cleared) := r in
+  forall n, coprime30 n -> k_low sg + 7 <= n -> byteof (k_low sg) n < k_size sg -> 7 <= n -> n <= k_high sg ->
+  (~ In (byteof (k_low sg) n, maskof n) cleared <-> prime n).
+
+Theorem sieve_loop_spec steps (Hsteps : forallb (entry_ok2 steps) (Nseq 64) = true) stop (Hstop : stop <= MAX64) fuel :
+  forall segs low pending (ws : list wstate) result,
+  segs_ok stop low segs ->
+  Forall (w_ok low) ws ->
+  StronglySorted N.lt pending -> Forall (sp_ok stop 7) pending ->
+  (forall p, sp_ok stop 7 p -> In p (map w_prime ws) \/ In p pending \/ dead stop low p) ->
+  sieve_loop fuel steps stop segs pending (map w_state ws) = Some result ->
+  Forall seg_result_ok result.
+Proof.
+  intros segs low pending ws result Hsegs Hws Hsorted Hpend Hcover H.
+  assert (Hwmin : Forall (fun p => 7 <= p) (map w_prime ws)).
+  { apply Forall_forall. intros p Hp. apply in_map_iff in Hp. destruct Hp as (x & <- & Hx). rewrite Forall_forall in Hws. specialize (Hws x Hx).
+    destruct x as [[[[sp ri] qi] q] i]. cbn [w_ok w_prime] in *. tauto. }
+  pose proof (sieve_loop_spec_g steps Hsteps stop Hstop 7 (N.le_refl 7) fuel segs low pending ws result Hsegs Hws Hwmin Hsorted Hpend Hcover H) as G.
+  eapply Forall_impl; [|exact G]. intros [sg cleared] Hr. cbn [seg_result_ok seg_result_ok_g] in *.
+  intros n Hc Hn Hb H7 Hnh. rewrite (Hr n Hc Hn Hb Hnh). apply bigfactor7_prime; assumption.
+Qed.
